@@ -692,9 +692,12 @@ func specErrWellFormed(err error) bool {
 // vmLoopInv: the invariant of the interpreter loop: vmPanicPoint, the current
 // frame is the top one (frames[frameIndex-1]) and has its function, there is
 // room for the frame index to grow, and the stack pointer is not negative.
-func vmLoopInv(vm *VM) bool {
+func vmLoopInv(vm *VM) bool { return vmFrameInv(vm) && vm.sp >= 0 }
+
+// vmFrameInv: the frame and handler part of the loop invariant.
+func vmFrameInv(vm *VM) bool {
 	return vmPanicPoint(vm) && vm.frameIndex <= frameSize-1 &&
-		vm.curFrame == &vm.frames[vm.frameIndex-1] && vm.curFrame.fn != nil && vm.sp >= 0
+		vm.curFrame == &vm.frames[vm.frameIndex-1] && vm.curFrame.fn != nil
 }
 
 // vmThrowOK: vmPanicPoint plus the limits handlePanic checks before it
